@@ -124,33 +124,67 @@ Example C15_ex_selection :
 Proof. vm_compute. reflexivity. Qed.
 
 (* ---------------------------------------------------------------- generated block accepted (composition with C03's model) *)
-From LE Require Import Exec.VerifyBlock Exec.Process Forge.Seal.
-(* "partial": every rule of Block.Validate, verifyBlock and block execution (Exec.VerifyBlock / Exec.Process) passes for
-   the block assembled by forge(), PROVIDED generation and acceptance see the same environment — the listed hypotheses.
-   Missing for the unconditional statement: the contradiction verdict from C15_never_self_contradicting through the vote
-   model (ve_contradicting), validity of the pooled aggregate commit (C06), signature correctness, determinism of the
-   ABI between generation and execution.  The real node is run on these paths by the correspondence (check_accept). *)
-Theorem C15_generated_block_accepted_partial : forall s tip g pe v x,
+From LE Require Import Exec.VerifyBlock Exec.Process Forge.Seal Forge.Accept.
+From LE Require BFT.Votes.
+(* The block is CONSTRUCTED (Forge.Accept.forge) from the node's own environment at that moment — clock, generator list
+   and maxHeightPrevoted of the verifier's venv — from the generator's reachable persisted info, from a valid selection, with
+   the transaction / asset roots computed by the same functions the validator uses and the state root the application computes.
+   Discharged inside the proof: height, previous block ID, version, slot not in the future, the slot's generator, own
+   maxHeightPrevoted, payload size (C15_selection_spec), statically valid transactions, both roots, state root, and the
+   CONTRADICTION verdict (IsHeaderContradictingChain of BFT.Votes on the node's store, from the generator invariant).
+   "partial": the remaining named hypotheses are S (byte lengths, sorted assets), L (same size limit configured), T (shouldForge:
+   a later slot than the tip's), G (generator list readable), W (window entries with this generator's address are headers it
+   handed on: unforgeability), A (aggregate commit accepted: C06 / empty commit below), X (signature verifies), D (the
+   application answers deterministically between generation and execution). *)
+Theorem C15_generated_block_accepted_partial :
+  forall (txroot_f : list tx -> bstr) (assetroot_f : list asset -> bstr) (idf : N -> bstr)
+         s tip v x limit outcome pool trace out assets imp agg eventroot vhash sig id app_root
+         g t0 evs (vts : Votes.votes) b,
+  let gs := run g init_header (init t0) evs in
   tip_header s = Some tip ->
-  b_len (h_id tip) = 32 -> b_len (ge_generator g) = 20 -> b_len (ge_sig g) = 64 ->
-  forallb tx_static (ge_txs g) = true -> strictly_sorted (map as_module (ge_assets g)) = true ->
-  pe_txroot pe = ge_txroot g -> pe_assetroot pe = ge_assetroot g ->
-  payload_size (forge_block tip g) <= ve_max_payload v ->
-  slot_of v (h_timestamp tip) < slot_of v (ge_now g) -> slot_of v (ge_now g) <= slot_of v (ve_now v) ->
-  ve_gen_lookup_ok v = true -> ve_generators v <> [] ->
-  nth_error (ve_generators v) (N.to_nat (slot_of v (ge_now g) mod N.of_nat (length (ve_generators v)))) = Some (ge_generator g) ->
-  ge_mhp g = ve_node_mhp v ->
-  ve_contradicting v = false -> agg_commit_ok (b_header (forge_block tip g)) v = true -> ve_sig_ok v = true ->
+  valid_selection limit outcome pool trace out = true ->
+  forge txroot_f assetroot_f idf tip v (disk gs) out assets imp agg eventroot app_root vhash sig id = Some b ->
+  g = b_code (h_gen (b_header b)) ->
+  b_len (h_id tip) = 32 -> b_len (h_gen (b_header b)) = 20 -> b_len sig = 64 ->
+  strictly_sorted (map as_module assets) = true ->
+  limit <= ve_max_payload v ->
+  slot_of v (h_timestamp tip) < slot_of v (ve_now v) ->
+  ve_gen_lookup_ok v = true ->
+  (forall bi, In bi (Votes.v_infos vts) -> Votes.i_gen bi = g -> In (Votes.bh_of_info bi) (published gs)) ->
+  ve_contradicting v = Votes.chain_contradicting vts
+    {| Votes.h_height := h_height (b_header b); Votes.h_gen := g; Votes.h_mhg := h_mhg (b_header b);
+       Votes.h_mhp := h_mhp (b_header b); Votes.h_cert := None |} ->
+  agg_commit_ok (b_header b) v = true ->
+  ve_sig_ok v = true ->
   xe_abi_init_ok x = true -> xe_abi_verify_assets_ok x = true -> xe_bft_ok x = true -> xe_abi_before_ok x = true ->
   (forall p, In p (xe_tx x) -> p = (true, true)) -> xe_abi_after_ok x = true ->
   (xe_params_changed x = true -> xe_set_params_ok x = true) ->
-  xe_post_vhash x = ge_vhash g -> xe_nevents x <= max_events -> xe_eventroot x = ge_eventroot g -> xe_abi_commit_ok x = true ->
-  receive s (forge_block tip g) pe v x = (Accepted, commit_block s (forge_block tip g) x).
-Proof. exact generated_block_accepted. Qed.
+  xe_post_vhash x = vhash -> xe_nevents x <= max_events -> xe_eventroot x = eventroot ->
+  xe_abi_commit_ok x = beq app_root (h_stateroot (b_header b)) ->
+  receive s b (mkPE (txroot_f (b_txs b)) (assetroot_f (b_assets b))) v x = (Accepted, commit_block s b x).
+Proof. exact generated_block_accepted_composed. Qed.
+
+(* the header the generator is about to sign is never reported by IsHeaderContradictingChain of the node's own store *)
+Theorem C15_forged_not_chain_contradicting : forall g t0 evs t h info (vts : Votes.votes) (hd : Votes.hdr),
+  let s := run g init_header (init t0) evs in
+  init_header (disk s) t g = Some (h, info) -> Votes.bh_of_hdr hd = h ->
+  (forall bi, In bi (Votes.v_infos vts) -> Votes.i_gen bi = g -> In (Votes.bh_of_info bi) (published s)) ->
+  Votes.chain_contradicting vts hd = false.
+Proof. intros g t0 evs t h info vts hd s. apply forged_not_chain_contradicting. apply reachable_inv. Qed.
 
 (* the empty aggregate commit at maxHeightCertified (what GetAggregateCommit returns when nothing can be aggregated)
-   discharges the aggregate-commit hypothesis *)
+   discharges hypothesis A *)
 Theorem C15_empty_aggregate_commit_ok : forall tip g v,
   b_len (ge_agg_bits g) = 0 -> b_len (ge_agg_sig g) = 0 -> ge_agg_height g = ve_mh_cert v ->
   agg_commit_ok (b_header (forge_block tip g)) v = true.
 Proof. exact empty_agg_commit_ok. Qed.
+
+(* non-vacuity: an instantiated forge (tip at height 5, the slot's generator with persisted info (4,2,0), two selected
+   transactions) is built and accepted by `receive` *)
+Example C15_ex_forged_and_accepted :
+  match Ex.blk with
+  | Some b => h_height (b_header b) = 6 /\ h_mhg (b_header b) = 4 /\ h_mhp (b_header b) = 3 /\ h_gen (b_header b) = mkB 20 1 /\
+              fst (receive (mkNode [Ex.tipB] 0 0 [] (Ex.B32 8)) b (mkPE (Ex.txroot_f (b_txs b)) (Ex.assetroot_f (b_assets b))) Ex.v Ex.x) = Accepted
+  | None => False
+  end.
+Proof. exact Ex.forged_and_accepted. Qed.
